@@ -427,6 +427,11 @@ zix_path_next(const char* const path, ZixPathIter iter)
   }
 
   if (iter.state <= ZIX_PATH_ROOT_DIRECTORY) {
+    // Skip any redundant root directory separators (they are not an element)
+    while (is_dir_sep(path[iter.range.end])) {
+      ++iter.range.end;
+    }
+
     iter.range.begin = iter.range.end;
     iter.state       = ZIX_PATH_FILE_NAME;
   }
